@@ -263,5 +263,13 @@ func mkBV8(name string, a, b *term) *term {
 		}
 		return bvConst(r&0xff, 8)
 	}
+	// push the operation through an if-then-else of constants (case-masked bytes), so that
+	// comparisons of the result still fold
+	if iteConsts(a) && b.isConst() {
+		return &term{op: "ite", w: 8, args: []*term{a.args[0], mkBV8(name, a.args[1], b), mkBV8(name, a.args[2], b)}}
+	}
+	if iteConsts(b) && a.isConst() {
+		return &term{op: "ite", w: 8, args: []*term{b.args[0], mkBV8(name, a, b.args[1]), mkBV8(name, a, b.args[2])}}
+	}
 	return &term{op: "bvop", name: name, args: []*term{a, b}, w: 8}
 }
